@@ -160,6 +160,14 @@ def obs (r : Option Ty) : Option TK := r.map Ty.term
 def kindExceptions : List (TK × TK) :=
   (TK.all.filter intK).flatMap fun k1 => ((TK.all.filter intK).filter (· != k1)).map fun k2 => (k1, k2)
 
+/-- EXCEPTION SET (computed from the regenerated rules, on primitive branch types): ordered pairs of result kinds
+    (k1, k2), k1 ≠ k2, such that `b ? <k1> : <k2>` and `b ? <k2> : <k1>` are both accepted with result kinds k1' ≠ k2'. -/
+def exactKindExceptions : List (TK × TK) :=
+  TK.all.flatMap fun ka => (TK.all.filterMap fun kb =>
+    match obs (inlineIf (.prim .BOOL) (.prim ka) (.prim kb)), obs (inlineIf (.prim .BOOL) (.prim kb) (.prim ka)) with
+    | some r1, some r2 => if r1 != r2 then some (r1, r2) else none
+    | _, _ => none)
+
 def agree (x y : Option TK) : Bool :=
   x == y || (match x, y with
     | some k1, some k2 => kindExceptions.contains (k1, k2)
@@ -220,5 +228,301 @@ theorem typeBin_NEQ_symm (a b : Ty) : typeBin .NEQ a b = typeBin .NEQ b a := by
   simp (disch := decide) only [is_term, areEqCompatible_symm' b a]
   generalize a.term = ka; generalize b.term = kb; generalize areEqCompatible a b = e
   revert ka kb e; decide
+
+/-! ### well-formed types, sizes -/
+mutual
+  /-- a childless node carries a kind that has no children in `type_t` either -/
+  def wfTy : Ty → Bool
+    | .prim k => TK.leaf k && k != .ARRAY && k != .RECORD
+    | .pfx _ t => wfTy t
+    | .ref t => wfTy t
+    | .label _ t => wfTy t
+    | .range t _ _ => wfTy t
+    | .array e s => wfTy e && wfTy s
+    | .record fs => wfFields fs
+  def wfFields : Fields → Bool
+    | .nil => true
+    | .cons _ t r => wfTy t && wfFields r
+end
+
+theorem size_pos (t : Ty) : 0 < t.size := by cases t <;> simp [Ty.size] <;> omega
+
+theorem fieldTy_wf : ∀ (fs : Fields) (i : Nat), wfFields fs = true → wfTy (Ty.fieldTy fs i) = true
+  | .nil, _, _ => by simp [Ty.fieldTy, Ty.unknown, wfTy, TK.leaf]
+  | .cons _ t _, 0, h => by simp only [wfFields, Bool.and_eq_true] at h; simpa [Ty.fieldTy] using h.1
+  | .cons _ _ r, i + 1, h => by
+      simp only [wfFields, Bool.and_eq_true] at h
+      simpa [Ty.fieldTy] using fieldTy_wf r i h.2
+
+theorem fieldTy_lt : ∀ (fs : Fields) (i : Nat), i < fs.length → (Ty.fieldTy fs i).size < Ty.fieldsSize fs + 1
+  | .nil, _, h => by simp [Fields.length] at h
+  | .cons _ t r, 0, _ => by simp [Ty.fieldTy, Ty.fieldsSize]; omega
+  | .cons _ t r, i + 1, h => by
+      have := fieldTy_lt r i (by simpa [Fields.length] using h)
+      simp [Ty.fieldTy, Ty.fieldsSize]; omega
+
+theorem unknown_wf : wfTy Ty.unknown = true := by decide
+
+theorem child0_wf (t : Ty) (h : wfTy t = true) : wfTy (t.child 0) = true := by
+  cases t with
+  | prim k => exact unknown_wf
+  | pfx p t => simpa [Ty.child, wfTy] using h
+  | ref t => simpa [Ty.child, wfTy] using h
+  | label n t => simpa [Ty.child, wfTy] using h
+  | range t lo hi => simpa [Ty.child, wfTy] using h
+  | array e s => simp only [wfTy, Bool.and_eq_true] at h; simpa [Ty.child] using h.1
+  | record fs => simpa [Ty.child] using fieldTy_wf fs 0 (by simpa [wfTy] using h)
+
+/-- the kinds `isSameScalarType` recurses through all have a (smaller) first child -/
+theorem child0_lt (t : Ty) (hwf : wfTy t = true)
+    (hk : t.kind = .REF ∨ t.kind = .CONSTANT ∨ t.kind = .SYSTEM_META ∨ t.kind = .LABEL ∨ t.kind = .RANGE) :
+    (t.child 0).size < t.size := by
+  cases t with
+  | prim k =>
+    simp only [Ty.kind] at hk
+    simp only [wfTy, Bool.and_eq_true] at hwf
+    rcases hk with h | h | h | h | h <;> (subst h; simp [TK.leaf] at hwf)
+  | pfx p t => simp [Ty.child, Ty.size]
+  | ref t => simp [Ty.child, Ty.size]
+  | label n t => simp [Ty.child, Ty.size]
+  | range t lo hi => simp [Ty.child, Ty.size]
+  | array e s => simp [Ty.kind] at hk
+  | record fs => simp [Ty.kind] at hk
+
+theorem W_kind (t : Ty) (h : W t = true) : t.kind = .REF ∨ t.kind = .CONSTANT ∨ t.kind = .SYSTEM_META ∨ t.kind = .LABEL ∨ t.kind = .RANGE := by
+  simp only [W, Bool.or_eq_true, beq_iff_eq] at h
+  rcases h with (h | h) | h
+  · exact Or.inl h
+  · exact Or.inr (Or.inl h)
+  · exact Or.inr (Or.inr (Or.inl h))
+
+/-! ### the fuel of `isSameScalarType` is adequate -/
+theorem sstBody_congr (r r' : Ty → Ty → Bool) (t1 t2 : Ty) (w1 : wfTy t1 = true) (w2 : wfTy t2 = true)
+    (h : ∀ x y, wfTy x = true → wfTy y = true → x.size + y.size < t1.size + t2.size → r x y = r' x y) :
+    isSameScalarTypeBody r t1 t2 = isSameScalarTypeBody r' t1 t2 := by
+  cases h1 : W t1
+  · cases h2 : W t2
+    · simp only [W] at h1 h2
+      simp only [isSameScalarTypeBody, h1, h2, Bool.false_eq_true, if_false]
+      by_cases hl : (t1.kind == TK.LABEL && t2.kind == TK.LABEL) = true
+      · simp only [hl, if_true]
+        simp only [Bool.and_eq_true, beq_iff_eq] at hl
+        have a1 := child0_lt t1 w1 (by simp [hl.1])
+        have a2 := child0_lt t2 w2 (by simp [hl.2])
+        rw [h _ _ (child0_wf t1 w1) (child0_wf t2 w2) (by omega)]
+      · simp only [hl, Bool.false_eq_true, if_false]
+        by_cases hr : (t1.kind == TK.RANGE && t2.kind == TK.RANGE) = true
+        · simp only [hr, if_true]
+          simp only [Bool.and_eq_true, beq_iff_eq] at hr
+          have a1 := child0_lt t1 w1 (by simp [hr.1])
+          have a2 := child0_lt t2 w2 (by simp [hr.2])
+          rw [h _ _ (child0_wf t1 w1) (child0_wf t2 w2) (by omega)]
+        · simp only [hr, Bool.false_eq_true, if_false]
+    · rw [body_W2 _ t1 t2 h1 h2, body_W2 _ t1 t2 h1 h2]
+      have a2 := child0_lt t2 w2 (W_kind t2 h2)
+      exact h _ _ w1 (child0_wf t2 w2) (by omega)
+  · rw [body_W1 _ t1 t2 h1, body_W1 _ t1 t2 h1]
+    have a1 := child0_lt t1 w1 (W_kind t1 h1)
+    exact h _ _ (child0_wf t1 w1) w2 (by omega)
+
+theorem sstF_adequate : ∀ n m t1 t2, wfTy t1 = true → wfTy t2 = true → t1.size + t2.size ≤ n → n ≤ m →
+    isSameScalarTypeF n t1 t2 = isSameScalarTypeF m t1 t2 := by
+  intro n
+  induction n with
+  | zero => intro m t1 t2 _ _ hs _; have := size_pos t1; omega
+  | succ n ih =>
+    intro m t1 t2 w1 w2 hs hm
+    cases m with
+    | zero => omega
+    | succ m =>
+      simp only [isSameScalarTypeF]
+      exact sstBody_congr _ _ t1 t2 w1 w2 (fun x y wx wy hlt => ih m x y wx wy (by omega) (by omega))
+
+/-! ### ... and so is the fuel of `areEquivalent` -/
+theorem getSubI_wf : ∀ (t : Ty) (i : Nat), wfTy t = true → wfTy (t.getSubI i) = true
+  | .prim _, _, _ => unknown_wf
+  | .pfx p t, i, h => by simpa [Ty.getSubI, wfTy] using getSubI_wf t i (by simpa [wfTy] using h)
+  | .ref t, i, h => by simpa [Ty.getSubI] using getSubI_wf t i (by simpa [wfTy] using h)
+  | .label _ t, i, h => by simpa [Ty.getSubI] using getSubI_wf t i (by simpa [wfTy] using h)
+  | .range t lo hi, i, h => by
+      cases i with
+      | zero => simpa [Ty.getSubI, Ty.child, wfTy] using h
+      | succ i => simpa [Ty.getSubI, Ty.child] using unknown_wf
+  | .array e s, i, h => by
+      simp only [wfTy, Bool.and_eq_true] at h
+      match i with
+      | 0 => simpa [Ty.getSubI, Ty.child] using h.1
+      | 1 => simpa [Ty.getSubI, Ty.child] using h.2
+      | _ + 2 => simpa [Ty.getSubI, Ty.child] using unknown_wf
+  | .record fs, i, h => by simpa [Ty.getSubI] using fieldTy_wf fs i (by simpa [wfTy] using h)
+
+theorem getSub_wf : ∀ (t : Ty), wfTy t = true → wfTy t.getSub = true
+  | .prim _, _ => unknown_wf
+  | .pfx p t, h => by simpa [Ty.getSub, wfTy] using getSub_wf t (by simpa [wfTy] using h)
+  | .ref t, h => by simpa [Ty.getSub] using getSub_wf t (by simpa [wfTy] using h)
+  | .label _ t, h => by simpa [Ty.getSub] using getSub_wf t (by simpa [wfTy] using h)
+  | .range t _ _, h => by simpa [Ty.getSub, wfTy] using h
+  | .array e s, h => by simp only [wfTy, Bool.and_eq_true] at h; simpa [Ty.getSub] using h.1
+  | .record fs, h => by simpa [Ty.getSub] using fieldTy_wf fs 0 (by simpa [wfTy] using h)
+
+theorem getArraySize_wf : ∀ (t : Ty), wfTy t = true → wfTy t.getArraySize = true
+  | .prim _, _ => unknown_wf
+  | .pfx p t, h => by simpa [Ty.getArraySize] using getArraySize_wf t (by simpa [wfTy] using h)
+  | .ref t, h => by simpa [Ty.getArraySize] using getArraySize_wf t (by simpa [wfTy] using h)
+  | .label _ t, h => by simpa [Ty.getArraySize] using getArraySize_wf t (by simpa [wfTy] using h)
+  | .range _ _ _, _ => unknown_wf
+  | .array e s, h => by simp only [wfTy, Bool.and_eq_true] at h; simpa [Ty.getArraySize] using h.2
+  | .record fs, h => by simpa [Ty.getArraySize] using fieldTy_wf fs 1 (by simpa [wfTy] using h)
+
+theorem getSubI_lt : ∀ (t : Ty) (i : Nat), wfTy t = true → t.is .RECORD = true → i < t.getRecordSize →
+    (t.getSubI i).size < t.size
+  | .prim k, i, _, _, hi => by simp [Ty.getRecordSize] at hi
+  | .pfx p t, i, w, hr, hi => by
+      have hr' : t.is .RECORD = true := by
+        cases p <;> simpa [Ty.is, Pfx.toTK] using hr
+      have := getSubI_lt t i (by simpa [wfTy] using w) hr' (by simpa [Ty.getRecordSize] using hi)
+      simp [Ty.getSubI, Ty.size]; omega
+  | .ref t, i, w, hr, hi => by
+      have := getSubI_lt t i (by simpa [wfTy] using w) (by simpa [Ty.is] using hr) (by simpa [Ty.getRecordSize] using hi)
+      simp [Ty.getSubI, Ty.size]; omega
+  | .label _ t, i, w, hr, hi => by
+      have := getSubI_lt t i (by simpa [wfTy] using w) (by simpa [Ty.is] using hr) (by simpa [Ty.getRecordSize] using hi)
+      simp [Ty.getSubI, Ty.size]; omega
+  | .range t lo hi', i, w, hr, hi => by
+      have := size_pos t
+      cases i with
+      | zero => simp [Ty.getSubI, Ty.child, Ty.size]
+      | succ i => simp [Ty.getSubI, Ty.child, Ty.size, Ty.unknown]; omega
+  | .array e s, i, _, hr, _ => by simp [Ty.is] at hr
+  | .record fs, i, _, _, hi => by
+      have := fieldTy_lt fs i (by simpa [Ty.getRecordSize] using hi)
+      simpa [Ty.getSubI, Ty.size] using this
+
+theorem getSub_lt : ∀ (t : Ty), wfTy t = true → t.is .ARRAY = true → t.getSub.size < t.size
+  | .prim k, w, ha => by
+      simp only [Ty.is, beq_iff_eq] at ha
+      subst ha
+      simp [wfTy] at w
+  | .pfx p t, w, ha => by
+      have ha' : t.is .ARRAY = true := by
+        cases p <;> simpa [Ty.is, Pfx.toTK] using ha
+      have := getSub_lt t (by simpa [wfTy] using w) ha'
+      simp [Ty.getSub, Ty.size]; omega
+  | .ref t, w, ha => by
+      have := getSub_lt t (by simpa [wfTy] using w) (by simpa [Ty.is] using ha)
+      simp [Ty.getSub, Ty.size]; omega
+  | .label _ t, w, ha => by
+      have := getSub_lt t (by simpa [wfTy] using w) (by simpa [Ty.is] using ha)
+      simp [Ty.getSub, Ty.size]; omega
+  | .range t _ _, _, _ => by simp [Ty.getSub, Ty.size]
+  | .array e s, _, _ => by simp [Ty.getSub, Ty.size]; omega
+  | .record fs, _, ha => by simp [Ty.is] at ha
+
+theorem any_congr' {α : Type} (l : List α) (f g : α → Bool) (h : ∀ x ∈ l, f x = g x) : l.any f = l.any g := by
+  induction l with
+  | nil => rfl
+  | cons x xs ih =>
+    simp only [List.any_cons, h x (by simp)]
+    rw [ih (fun y hy => h y (by simp [hy]))]
+
+theorem aeBody_congr (r r' : Ty → Ty → Bool) (a b : Ty) (wa : wfTy a = true) (wb : wfTy b = true)
+    (h : ∀ x y, wfTy x = true → wfTy y = true → x.size + y.size < a.size + b.size → r x y = r' x y) :
+    areEquivalentBody r a b = areEquivalentBody r' a b := by
+  simp only [areEquivalentBody]
+  by_cases hrec : (ty_is_record a && ty_is_record b) = true
+  · have hra : a.is .RECORD = true := by simp only [Bool.and_eq_true, ty_is_record] at hrec; exact hrec.1
+    have hrb : b.is .RECORD = true := by simp only [Bool.and_eq_true, ty_is_record] at hrec; exact hrec.2
+    by_cases hsz : a.getRecordSize = b.getRecordSize
+    · have hany : ((List.range a.getRecordSize).any fun i_i =>
+            (a.getRecordLabel i_i != b.getRecordLabel i_i || !r (a.getSubI i_i) (b.getSubI i_i))) =
+          ((List.range a.getRecordSize).any fun i_i =>
+            (a.getRecordLabel i_i != b.getRecordLabel i_i || !r' (a.getSubI i_i) (b.getSubI i_i))) := by
+        apply any_congr'
+        intro i hi
+        have hia : i < a.getRecordSize := List.mem_range.mp hi
+        have l1 := getSubI_lt a i wa hra hia
+        have l2 := getSubI_lt b i wb hrb (by omega)
+        rw [h _ _ (getSubI_wf a i wa) (getSubI_wf b i wb) (by omega)]
+      simp only [hrec, if_true, hany]
+    · have : (a.getRecordSize == b.getRecordSize) = false := by simpa using hsz
+      simp only [hrec, if_true, this, Bool.false_eq_true, if_false]
+  · have hrec' : (ty_is_record a && ty_is_record b) = false := by simpa using hrec
+    by_cases harr : (ty_is_array a && ty_is_array b) = true
+    · have haa : a.is .ARRAY = true := by simp only [Bool.and_eq_true, ty_is_array] at harr; exact harr.1
+      have hab : b.is .ARRAY = true := by simp only [Bool.and_eq_true, ty_is_array] at harr; exact harr.2
+      have l1 := getSub_lt a wa haa
+      have l2 := getSub_lt b wb hab
+      simp only [hrec', Bool.false_eq_true, if_false, h _ _ (getSub_wf a wa) (getSub_wf b wb) (show a.getSub.size + b.getSub.size < a.size + b.size by omega)]
+    · have harr' : (ty_is_array a && ty_is_array b) = false := by simpa using harr
+      simp only [hrec', harr', Bool.false_eq_true, if_false]
+
+theorem aeF_adequate : ∀ n m a b, wfTy a = true → wfTy b = true → a.size + b.size ≤ n → n ≤ m →
+    areEquivalentF n a b = areEquivalentF m a b := by
+  intro n
+  induction n with
+  | zero => intro m a b _ _ hs _; have := size_pos a; omega
+  | succ n ih =>
+    intro m a b wa wb hs hm
+    cases m with
+    | zero => omega
+    | succ m =>
+      simp only [areEquivalentF]
+      exact aeBody_congr _ _ a b wa wb (fun x y wx wy hlt => ih m x y wx wy (by omega) (by omega))
+
+/-! ### REF and CONSTANT wrappers do not matter for equivalence -/
+theorem sst_ref_left (a b : Ty) : isSameScalarType (.ref a) b = isSameScalarType a b := by
+  simp only [isSameScalarType, Ty.size]
+  rw [show a.size + 1 + b.size = (a.size + b.size) + 1 by omega]
+  simp only [isSameScalarTypeF]
+  rw [body_W1 _ _ _ (by simp [W, Ty.kind])]
+  simp [Ty.child]
+
+theorem sst_const_left (a b : Ty) : isSameScalarType (.pfx .CONSTANT a) b = isSameScalarType a b := by
+  simp only [isSameScalarType, Ty.size]
+  rw [show a.size + 1 + b.size = (a.size + b.size) + 1 by omega]
+  simp only [isSameScalarTypeF]
+  rw [body_W1 _ _ _ (by simp [W, Ty.kind, Pfx.toTK])]
+  simp [Ty.child]
+
+theorem is_ref (a : Ty) (k : TK) (h : (k == TK.REF) = false) : (Ty.ref a).is k = a.is k := by simp [Ty.is, h]
+theorem is_const (a : Ty) (k : TK) (h : (TK.CONSTANT == k) = false) : (Ty.pfx .CONSTANT a).is k = a.is k := by
+  simp [Ty.is, Pfx.toTK, h]
+
+theorem aeBody_ref_left (r : Ty → Ty → Bool) (a b : Ty) : areEquivalentBody r (.ref a) b = areEquivalentBody r a b := by
+  simp only [areEquivalentBody, sst_ref_left, channelCapability]
+  unfold_type_preds
+  simp (disch := decide) only [is_ref]
+  simp only [Ty.getRange, Ty.getRecordSize, Ty.getRecordLabel, Ty.getSubI, Ty.getSub, Ty.getArraySize]
+  rfl
+
+theorem aeBody_const_left (r r' : Ty → Ty → Bool) (a b : Ty) (h : ∀ x y, r (.pfx .CONSTANT x) y = r' x y) :
+    areEquivalentBody r (.pfx .CONSTANT a) b = areEquivalentBody r' a b := by
+  simp only [areEquivalentBody, sst_const_left, channelCapability]
+  unfold_type_preds
+  simp (disch := decide) only [is_const]
+  simp only [Ty.getRange, Ty.getRecordSize, Ty.getRecordLabel, Ty.getSubI, Ty.getSub, Ty.getArraySize, h]
+  rfl
+
+theorem aeF_ref_left (n : Nat) (a b : Ty) : areEquivalentF n (.ref a) b = areEquivalentF n a b := by
+  cases n with
+  | zero => rfl
+  | succ n => simp only [areEquivalentF]; exact aeBody_ref_left _ a b
+
+theorem aeF_const_left : ∀ (n : Nat) (a b : Ty), areEquivalentF n (.pfx .CONSTANT a) b = areEquivalentF n a b := by
+  intro n
+  induction n with
+  | zero => intro a b; rfl
+  | succ n ih => intro a b; simp only [areEquivalentF]; exact aeBody_const_left _ _ a b ih
+
+theorem areEquivalent_ref_left' (a b : Ty) (wa : wfTy a = true) (wb : wfTy b = true) :
+    areEquivalent (.ref a) b = areEquivalent a b := by
+  simp only [areEquivalent, Ty.size, aeF_ref_left]
+  exact (aeF_adequate _ _ a b wa wb (Nat.le_refl _) (by omega)).symm
+
+theorem areEquivalent_const_left' (a b : Ty) (wa : wfTy a = true) (wb : wfTy b = true) :
+    areEquivalent (.pfx .CONSTANT a) b = areEquivalent a b := by
+  simp only [areEquivalent, Ty.size, aeF_const_left]
+  exact (aeF_adequate _ _ a b wa wb (Nat.le_refl _) (by omega)).symm
+
 
 end UtapModel.C14
